@@ -7,6 +7,7 @@ import difflib
 import functools
 import heapq
 import io
+import itertools
 import re
 import textwrap
 import tokenize
@@ -274,6 +275,9 @@ def remove_nodes(source: str, nodes: Iterable[ast.AST], root: ast.Module) -> str
     """
     keep_mask = [True] * len(source)
     nodes = list(nodes)
+    if any(core.has_ignore_comment(source, core.get_charnos(node, source)) for node in nodes):
+        return source  # Code on a line with a pyrefact: ignore comment stays
+
     for node in nodes:
         start, end = core.get_charnos(node, source)
 
@@ -572,6 +576,13 @@ def alter_code(
     # If priority specified, prioritize some actions over others. This goes on a line number
     # level, so col_offset will be overridden by this.
     original_source = source
+
+    # All or nothing: what is taken out here is usually put in elsewhere
+    if any(
+        core.has_ignore_comment(source, core.get_charnos(node, source))
+        for node in itertools.chain(removals, replacements)
+    ):
+        return source
     priorities = {
         modification_type: priority.index(modification_type)
         if modification_type in priority
